@@ -174,6 +174,9 @@ Theorem decode_pd_noof bs : decode_pd bs <> OutOfFuel.
 Proof. unfold decode_pd. apply dec_pd_noof. lia. Qed.
 
 (* ---------------------------------------------------------------- the transaction *)
+Lemma check_len_noof ln k : check_len ln k <> OutOfFuel.
+Proof. unfold check_len. destruct ln as [n|]; [destruct (n =? k)|]; discriminate. Qed.
+
 Lemma dec_vkw_noof : noof dec_vkw.
 Proof.
   intros bs. unfold dec_vkw. apply bind_no_oof; [apply rd_head_noof|]. intros [ln r0] _.
@@ -185,6 +188,7 @@ Qed.
 Lemma dec_bw_noof : noof dec_bw.
 Proof.
   intros bs. unfold dec_bw. apply bind_no_oof; [apply rd_head_noof|]. intros [ln r0] _.
+  apply bind_no_oof; [apply check_len_noof|]. intros u _.
   apply bind_no_oof; [apply rd_bytes_noof|]. intros [vk r1] _. destruct (negb (blen vk =? 32)); [discriminate|].
   apply bind_no_oof; [apply rd_bytes_noof|]. intros [sg r2] _. destruct (negb (blen sg =? 64)); [discriminate|].
   apply bind_no_oof; [apply rd_bytes_noof|]. intros [cc r3] _.
@@ -252,15 +256,18 @@ Proof.
   apply bind_no_oof; [apply dec_wits_loop_noof; lia|]. intros [fs r'] _. discriminate.
 Qed.
 
-Lemma dec_tail_noof : noof dec_tail.
+Lemma dec_tail_noof ln : noof (dec_tail ln).
 Proof.
   intros bs. unfold dec_tail. apply bind_no_oof; [apply cbor_type_no_oof|]. intros t _. destruct (t =? 7).
   - apply bind_no_oof; [apply rd_special_no_oof|]. intros [s r] _. destruct s; try discriminate.
-    apply bind_no_oof; [|intros [a r'] _; discriminate].
-    unfold dec_aux_after_bool. apply bind_no_oof; [apply cbor_type_no_oof|]. intros t' _. destruct (t' =? 7).
-    + apply bind_no_oof; [apply rd_special_no_oof|]. intros [s' r'] _. destruct s'; discriminate.
-    + apply bind_no_oof; [apply raw_item_noof|]. intros [a r'] _. discriminate.
-  - apply bind_no_oof; [apply raw_item_noof|]. intros [a r] _. discriminate.
+    + apply bind_no_oof; [apply check_len_noof|]. intros u _.
+      apply bind_no_oof; [|intros [a r'] _; discriminate].
+      unfold dec_aux_after_bool. apply bind_no_oof; [apply cbor_type_no_oof|]. intros t' _. destruct (t' =? 7).
+      * apply bind_no_oof; [apply rd_special_no_oof|]. intros [s' r'] _. destruct s'; discriminate.
+      * apply bind_no_oof; [apply raw_item_noof|]. intros [a r'] _. discriminate.
+    + apply bind_no_oof; [apply check_len_noof|]. intros u _. discriminate.
+  - apply bind_no_oof; [apply check_len_noof|]. intros u _.
+    apply bind_no_oof; [apply raw_item_noof|]. intros [a r] _. discriminate.
 Qed.
 
 Lemma parse_exact_noof bs : parse_exact bs <> OutOfFuel.
